@@ -24,6 +24,7 @@ def _p(o, n):
 SELECT = {
     'objtype:o': (0, 'cmp_objtype', lambda O: O.get_object_type('o'), lambda o: OL.ot_node(OL._ot(o, 'o'))),
     'objtype:n': (0, 'cmp_objtype', lambda O: O.get_object_type('n'), lambda o: OL.ot_node(OL._ot(o, 'n'))),
+    'objtype:g': (0, 'cmp_objtype', lambda O: O.get_object_type('g'), lambda o: OL.ot_node(OL._ot(o, 'g'))),
     'objtype:e': (0, 'cmp_objtype', lambda O: O.get_object_type('e'), lambda o: OL.ot_node(OL._ot(o, 'e'))),
     'concept:c': (0, 'cmp_concept', lambda O: O.get_concept('c'), lambda o: OL.concept_node(o['concepts'][0])),
     'source:/s/': (0, 'cmp_source', lambda O: O.get_event_source('/s/'), lambda o: OL.source_node(o['sources'][0])),
@@ -40,7 +41,7 @@ SELECT = {
                lambda o: OL.leaf1(_et(o)['version'], list(_et(o)['parent'].items())) if _et(o)['parent'] else None),
     'etype:ta': (2, '(cmp_etype FIXED)', lambda O: O.get_event_type('ta'), lambda o: OL.et_node(_et(o), o)),
 }
-KIND_OF_EDIT = {'object-type': ['objtype:o', 'objtype:n', 'objtype:e'], 'concept': ['concept:c'], 'source': ['source:/s/'],
+KIND_OF_EDIT = {'object-type': ['objtype:o', 'objtype:n', 'objtype:e', 'objtype:g'], 'concept': ['concept:c'], 'source': ['source:/s/'],
                 'event-type': ['etype:ta'], 'property': ['prop:p', 'prop:q', 'etype:ta'], 'association': ['assoc:q.c', 'prop:q', 'etype:ta'],
                 'relation': ['rel:inter', 'etype:ta'], 'attachment': ['att:doc', 'etype:ta'], 'parent': ['parent', 'etype:ta']}
 
